@@ -21,7 +21,8 @@ class Prop(PropBase):
             "with (a) the bytes the capturing test channel received for the same operations in the executor and (b) the "
             "model's output; large writes (70 KB - 1 MB) are additionally made while the pipe is full and SIGUSR1 is delivered "
             "repeatedly to the blocked writer (short write(2) counts) with the parent reading slowly; the first 25 scripts run a second "
-            "time in a program that leaves a pending field width, fill character and number base on std::cout between operations. Non-trivial: the script writes at least one byte; distinct by script text.")
+            "time in a program that leaves a pending field width, fill character and number base on std::cout between operations, and a third "
+            "time with errno holding EAGAIN / EINTR; close(), is_alive() and async_read() are called between writes. Non-trivial: the script writes at least one byte; distinct by script text.")
     ASSUMPTIONS = ["OS pipe and iostream flushing at process exit are observed, not proved (level: partial for the runtime)"]
 
     @staticmethod
@@ -41,6 +42,10 @@ class Prop(PropBase):
             data = [r.randrange(256) for _ in range(n)]
             out.append("T 0 ; wr %d %s" % (n, " ".join(map(str, data))))
         out.append("T 0 ; wr 4 0 255 0 128 ; wr 0 ; wr 3 27 91 109 ; wr 1 10")
+        # the rest of the channel interface in between: close(), is_alive(), async_read() - output goes on afterwards
+        out.append("T 0 ; we %s ; cl ; we %s ; wr 3 65 66 67" % (e, e))
+        out.append("T 0 ; ar ; we %s ; al ; cl ; al ; wr 2 104 105 ; cl ; we %s" % (e, e))
+        out.append("T 12 ; cl ; ti 2 104 105 ; we %s" % e)
         # orderings of small and large writes in ONE process (buffer thresholds at 512 / 4096 / 8192 / 65536)
         def blob(n):
             return "wr %d %s" % (n, " ".join(str(r.randrange(256)) for _ in range(n)))
@@ -82,6 +87,9 @@ class Prop(PropBase):
         # between terminal operations (the channel writes bytes; formatting state must not touch them)
         env_fmt = dict(env, VERIF_COUT_STATE="1")
         runs += [(s_, env_fmt) for s_ in scripts[:25]]
+        # … and in a program whose errno holds EAGAIN / EINTR (left over from something unrelated) when the terminal writes
+        env_errno = dict(env, VERIF_ERRNO="1")
+        runs += [(s_, env_errno) for s_ in scripts[:25]]
         for s_, env_ in runs:
             body = s_[1:].strip()  # drop the kind letter
             p = subprocess.run([child], input=(body + "\n").encode(), stdout=subprocess.PIPE, stderr=subprocess.PIPE, env=env_, timeout=120)
